@@ -1688,7 +1688,7 @@ func (c11) Gen(rng *rand.Rand, tier string, emit func(string)) {
 	// ---- random ----------------------------------------------------------------------------------
 	n := 2500
 	if tier == "thorough" {
-		n = 5400
+		n = 4400
 	}
 	for it := 0; it < n; it++ {
 		var o c11Opt
@@ -1885,7 +1885,7 @@ func (c11) Gen(rng *rand.Rand, tier string, emit func(string)) {
 	// between / above the distances; a few circular
 	nm := 160
 	if tier == "thorough" {
-		nm = 400
+		nm = 300
 	}
 	for k := 0; k < nm; k++ {
 		var o c11Opt
